@@ -14,6 +14,16 @@ FW_RULE = ("cases = random validated machine sets x call histories drawn from on
            "A case is non-trivial when %s; distinct = distinct wire encodings.")
 
 PROPS = {
+    "C12": {
+        "sub": "c12",
+        "n": {"quick": 6000, "thorough": 400000},
+        "coq_sample": {"quick": 25, "thorough": 300},
+        "rule": ("cases = a generated valid machine with 0-2 adversarial mutations (NaN with several payloads, +-inf, -0.0, subnormals, one ulp beyond each bound on every "
+                 "numeric field incl. distribution parameters, out-of-range/duplicate targets, empty transition vectors via deserialisation, empty state list) and "
+                 "framework fractions drawn from the same pool; the real Machine::validate, Framework::new, Machine::from_str(serialize) and Machine::new verdicts must "
+                 "equal the Coq model's validate_machine / valid_cfg, and everything accepted must satisfy an independent well-formedness predicate. "
+                 "Non-trivial = a mutated machine (distinct encodings)."),
+    },
     "C10": {
         "sub": "fw",
         "n": {"quick": 2500, "thorough": 200000},
